@@ -93,6 +93,22 @@ def generate(rng, tier):
                 if quick and (k + len(sbody) + len(j)) % 3:
                     continue
                 add(b"[[" + b"1," * k + j + b'"' + sbody + b'"]]', "string-at-buffer-end", rng.choice([256, 256, 0, 264, 128]), 0)
+    # string VALUES handed over as zero-copy views (SetString(ptr, len)) whose bytes end 0..72 bytes in front of an unmapped page - a string
+    # that lives in a mapped file: the serialization must succeed with the same bytes however the document was built
+    def esc(bs):
+        return b"".join(b"\\u%04x" % c if (c < 0x20 or c in (0x22, 0x5C)) else bytes([c]) for c in bs)
+    for gap in (range(0, 73) if not quick else sorted(set(rng.sample(range(0, 73), 20) + [0, 1, 2, 14, 15, 16, 17, 30, 31, 32, 33, 63, 64]))):
+        for n in (1, 2, rng.choice([3, 5, 9]), rng.choice([15, 16, 17, 31, 32, 33]), rng.choice([40, 63, 64, 65, 100, 130])):
+            for pat in (0, 1, 2, 3):
+                body = bytearray(rng.choice(b"xyz 09") for _ in range(n))
+                if pat == 1:
+                    body[-1] = rng.choice([0x22, 0x5C, 0x0A, 1])
+                elif pat == 2:
+                    body[0] = rng.choice([0x22, 0x5C, 0x0A, 1])
+                elif pat == 3:
+                    body = bytearray(rng.choice([0x22, 0x5C, 0x0A, 1, 0x1F, 0x61]) for _ in range(n))
+                doc = b'{"k":["' + esc(bytes(body)) + b'"]}'
+                cases.append({"lines": [f"serv {gap} {rng.choice([0, 0, 1])} {G.hx(doc)}"], "cls": "string-view-at-page-end", "nontrivial": True})
     # long chains of closing brackets behind a small last leaf, in small / fresh / reused buffers: '[[[...leaf...]]]' and the object
     # form, every depth (quick: sampled) up to 400 - the reservation made when a scope is closed is the only room the closers have
     depths = list(range(0, 401)) if not quick else sorted(set(rng.sample(range(0, 401), 60) + [38, 39, 40, 41, 42, 80, 81, 82, 83, 126, 127, 128, 129, 130, 255, 256, 257]))
